@@ -27,7 +27,7 @@ import (
 
 const M = ringlab.M
 
-var scenarios = []string{"nil-pred-at-lock", "nil-pred-before", "pred-self", "dup-id", "adjacent-id", "succ-transferring", "succ-leaving", "leave-then-join-race", "stale-dead-pred"}
+var scenarios = []string{"nil-pred-at-lock", "nil-pred-before", "pred-self", "dup-id", "adjacent-id", "succ-transferring", "succ-leaving", "leave-then-join-race", "stale-dead-pred", "succ-left-stale-route"}
 
 type jcase struct {
 	Name     string `json:"name"`
@@ -242,6 +242,37 @@ func runCase(c jcase, rep *batch.Report) batch.CaseResult {
 			}
 		}
 		go func() { time.Sleep(time.Duration(5+rng.Intn(20)) * time.Millisecond); lab.Unfreeze() }()
+	case "succ-left-stale-route":
+		if n < 3 {
+			break
+		}
+		// the joiner's successor-to-be has left for good, but the member the joiner contacts still
+		// routes to it (periodic tasks parked: nobody has repaired its pointers): the request is
+		// forwarded to a node that is gone
+		if !lab.FreezePeriodic(20 * time.Second) {
+			res.Inconclusive = "periodic tasks could not be parked within 20 s"
+			return res
+		}
+		succ.Leave()
+		if succ.State() == chord.Left {
+			for _, m := range members {
+				if m == succ || !m.IsMember() {
+					continue
+				}
+				if f, err := m.Node.FindSuccessor(jid); err == nil && f != nil && f.ID() == succID {
+					via = m
+					windowHit.Store(true)
+					stateSeen = fmt.Sprintf("member %d still routes %d to %d, which is %s", m.ID, jid, succID, succ.State())
+					break
+				}
+			}
+		}
+		if !windowHit.Load() {
+			for via == succ {
+				via = members[rng.Intn(len(members))]
+			}
+		}
+		go func() { time.Sleep(time.Duration(5+rng.Intn(20)) * time.Millisecond); lab.Unfreeze() }()
 	default:
 		windowHit.Store(true)
 	}
@@ -342,7 +373,7 @@ func main() {
 	child.Register("cases", runCases)
 	child.Main()
 	r := ev.Start("C08", "exploration")
-	r.SetRule("a real Join is issued into a live ring of 1..6 real LocalNodes whose contacted successor is in a constructed state: predecessor cleared exactly when the request holds the membership lock (hook rtj.locked) or just before; predecessor == self (one-node ring); joiner id equal / adjacent (+-1,+-2) to a member id; successor held in Transferring by another join (blocked at a hook) or in Leaving by its own leave (blocked at a hook); predecessor of the successor leaving concurrently; predecessor of the successor gone with the pointer still naming it (periodic tasks parked), asked directly or through another member; direct and proxied wiring; distinct+non-trivial = (scenario, ring size, wiring, outcome class) for cases whose window was hit")
+	r.SetRule("a real Join is issued into a live ring of 1..6 real LocalNodes whose contacted successor is in a constructed state: predecessor cleared exactly when the request holds the membership lock (hook rtj.locked) or just before; predecessor == self (one-node ring); joiner id equal / adjacent (+-1,+-2) to a member id; successor held in Transferring by another join (blocked at a hook) or in Leaving by its own leave (blocked at a hook); predecessor of the successor leaving concurrently; predecessor of the successor gone with the pointer still naming it (periodic tasks parked), asked directly or through another member; successor gone for good while the contacted member still routes to it; direct and proxied wiring; distinct+non-trivial = (scenario, ring size, wiring, outcome class) for cases whose window was hit")
 	r.Assume("an equal joiner id is answered with ErrDuplicateJoinerID (not a valid joiner); ErrNodeGone from a contacted node that has itself left meanwhile is not an internal error of a serving node")
 	rng := r.Rand("cases")
 	reps := r.Pick(4, 60)
